@@ -29,7 +29,7 @@ func (p EvenPort) String() string {
 
 const (
 	evenPortSize = 1
-	firstBitSet  = (1 << 8) - 1 // 0b100000000
+	firstBitSet  = 1 << 7 // 0b10000000, the R bit
 )
 
 // AddTo adds EVEN-PORT to message.
